@@ -14,6 +14,7 @@ func init() {
 			"(C02-first) in every eval-path loop that obtains a policy/rule verdict, the next element is consulted only under verdict == NotCaptured; " +
 			"(C02-d) the admin-policy matchers run everything but the PeerType test for non-IP peers only. " +
 			"(C02-sib) the eight rule-iteration methods (ANP/BANP x ingress/egress x set/query) agree: each ranges over its direction's rules and hands peers, ports, action, the peers in role order and the baseline flag to the helper of its direction. " +
+			"(C02-canon) a set whose all-flag is raised has an empty protocol map - Intersection of the egress and ingress verdicts relies on it; (C02-pure) no unreviewed long-lived write on a query path (a memo keyed too coarsely gives one pair the verdict of another). " +
 			"NOT decided: that the sets computed are the right sets; the behaviour of sort.Slice itself."
 		rules.SortedTypestate(p, r)
 		rules.PriorityComparator(p, r)
